@@ -236,6 +236,8 @@ def fault_points(sc, cfg):
     n_boom = int(sc["t"]) + int(sc["g_boom"])
     for n in range(1, 2 * n_boom + 2):
         pts.append(("serializer-fails-on-call", n))
+    if sc.get("pf") and sc["multifile"]:
+        pts.append(("binary-path-content", None))  # the file whose content is to be copied cannot be read as text: nothing can be serialised
     n_writes = 1 + (int(sc["d_from_file"]) + int(sc["g_from_file"]) + int(bool(sc.get("pf"))) if sc["multifile"] else 0)
     for k in range(1, n_writes + 1):
         pts.append(("open-for-write-fails", k))
@@ -289,6 +291,10 @@ def run_case(ctx, sc):
             if sc["pre_other"]:
                 with open(os.path.join(out, "unrelated.txt"), "w") as f:
                     f.write("keep me")
+            vocab_src = os.path.join(src if sc.get("sub_ref", "bare") == "bare" else os.path.join(src, "parts"), "vocab.txt")
+            if kind == "binary-path-content":
+                with open(vocab_src, "wb") as f:
+                    f.write(b"\xff\xfe\x00binary\x80")
             before = snapshot(out)
             cfg = apply_fault(cfg0, kind, arg)
             SER["count"], SER["fail_at"] = 0, (arg if kind == "serializer-fails-on-call" else None)
@@ -309,6 +315,9 @@ def run_case(ctx, sc):
                 builtins.open = wrapper.real
                 SER["fail_at"] = None
                 os.chdir(old_cwd)
+                if kind == "binary-path-content":
+                    with open(vocab_src, "w") as f:
+                        f.write("w1\nw2\n")
                 if old_home is None:
                     os.environ.pop("HOME", None)
                 else:
@@ -331,7 +340,7 @@ def run_case(ctx, sc):
             if not sc["overwrite"] and sc["pre_target"] is not None and outcome == "saved":
                 ctx.finding(f"C18/existing-target-not-refused/{where}", det)
             # 3. all-or-nothing when the configuration is invalid or cannot be serialised
-            config_fault = kind in ("invalid", "unserialisable-any") or (kind == "serializer-fails-on-call" and SER["count"] >= arg)
+            config_fault = kind in ("invalid", "unserialisable-any", "binary-path-content") or (kind == "serializer-fails-on-call" and SER["count"] >= arg)
             if config_fault and kind == "serializer-fails-on-call" and outcome == "saved":
                 config_fault = False  # the n-th call never happened during this save
             if config_fault:
@@ -373,6 +382,39 @@ def run_case(ctx, sc):
                 # Observed on this tree: multi-file save raises TypeError / RepresenterError when a sub-file section holds a value of a
                 # registered type (F44, recorded in DESIGN.md): sub-file sections are dumped without serialising their values.
                 ctx.cls(f"valid-save-raises ({where}; outside the statement): {outcome}")
+        # saving next to the originals with overwrite: every file that is "replaced" is replaced by its own content, nothing is lost
+        if sc["multifile"] and sc["overwrite"] and (sc.get("pf") or sc["d_from_file"] or sc["g_from_file"]) and not sc.get("modify"):
+            ctx.evaluations += 1
+            ctx.cls("save-into-the-source-directory")
+            sub_dir = src if sc.get("sub_ref", "bare") == "bare" else os.path.join(src, "parts")
+            before = snapshot(sub_dir)
+            os.chdir(sub_dir)
+            try:
+                p.save(cfg0, os.path.join(sub_dir, "saved_here.yaml"), format="yaml", multifile=True, overwrite=True)
+                outcome = "saved"
+            except Exception as ex:  # noqa
+                outcome = "failed:" + type(ex).__name__
+            finally:
+                os.chdir(old_cwd)
+            after = snapshot(sub_dir)
+            if sc.get("pf") and after.get("vocab.txt") != before.get("vocab.txt"):
+                ctx.finding("C18/save-next-to-the-originals-destroys-the-copied-file", {"outcome": outcome, "before": before.get("vocab.txt"), "after": after.get("vocab.txt")})
+            if outcome == "saved":
+                try:
+                    os.chdir(top)
+                    back = build().parse_path(os.path.join(sub_dir, "saved_here.yaml"))
+                    b2, c2 = _rt.clean(back), _rt.clean(cfg0)
+                    if sc.get("pf"):
+                        if b2.pf is None or b2.pf.get_content() != "w1\nw2\n":
+                            ctx.finding("C18/copied-path-content-differs", {"got": repr(b2.pf), "where": "saved next to the originals"})
+                        b2.pop("pf"), c2.pop("pf")
+                    d = G.diff(b2, c2, limit=3)
+                    if d:
+                        ctx.finding("C18/saved-config-re-parses-differently/multifile", {"diff": short(d, 300), "where": "saved next to the originals"})
+                except Exception as ex:  # noqa
+                    ctx.finding(f"C18/saved-config-does-not-re-parse/multifile:{type(ex).__name__}", {"error": fmt_exc(ex), "where": "saved next to the originals"})
+                finally:
+                    os.chdir(old_cwd)
         ctx.sample()
 
 
